@@ -3,10 +3,16 @@
     case = (kind, op, inputs, outputs); an empty output list = the crate's constructor panicked.
     kind 0: BBox3D function [op]; kind 1: transform_bbox / inv_transform_bbox on hooked matrices;
     kind 2: triangle; kind 3: sphere; kind 4: cylinder (outputs = bounds then world_bounds). *)
-From G3 Require Import Run.Harness Model.Vec Model.BBox Model.Transform Model.Bounds.
+(** The runner text is written once, in a section over the number instance [NK : Num float]: module [C15] instantiates it on
+    [NumF] (the f64 build), module [C15f32] on [NumF32fast] (= [NumF32], Run/FastNum32Proof.v) for the build with
+    `--features float`.  Nothing compared here is downstream of libm (the transform of Cylinder3D::new is read back through the
+    hook): bit for bit in both builds. *)
+From G3 Require Import Run.Harness Run.FastNum32 Model.Vec Model.BBox Model.Transform Model.Bounds.
 Local Open Scope num_scope.
 
 Definition K := float.
+Section WithInstance.
+Context {NK : Num float}.
 Definition fl (l : list spec_float) (i : nat) : K := SF2Prim (nthsf l i).
 Definition v_of (l : list spec_float) (o : nat) : V3 K := mkV3 (fl l o) (fl l (o+1)) (fl l (o+2)).
 Definition b_of (l : list spec_float) (o : nat) : BBox K := mkBBox (v_of l o) (v_of l (o+3)).
@@ -81,6 +87,12 @@ Definition chk (c : N * N * list spec_float * list spec_float) : N :=
          end
   end%N.
 
+End WithInstance.
+
 Module C15.
-  Definition run := run_cases chk.
+  Definition run := run_cases (@chk NumF).
 End C15.
+(** the f32 build: the same runner on the binary32 instance *)
+Module C15f32.
+  Definition run := run_cases (@chk NumF32fast).
+End C15f32.
